@@ -379,7 +379,7 @@ grammar = Grammar(
                      / str_func_exp_statements
                      / str_array_ref_exp
                      / str_var
-    comment_text    = ~r"[^\n\r]*"
+    comment_text    = ~r"(?:[^\n\r\x00]|\x00(?!\Z))*"
     comment_token   = ~r"(REM|')"
     eof             = ~r"$"
     eol             = ~r"[\n\r]"
@@ -391,7 +391,7 @@ grammar = Grammar(
     int_hex_literal = ~r"& *H *[0-9A-F][0-9A-F]?[0-9A-F]?[0-9A-F]?[0-9A-F]?[0-9A-F]?"
     space           = ~r" "
     str_literal     = ~r'\"[^"\n\r]*\"'
-    partial_str_lit = ~r'\"[^"\n\r]*'
+    partial_str_lit = ~r'\"(?:[^"\n\r\x00]|\x00(?!\Z))*'
     unop            = "+" / "-"
     var             = ~r"(?!{KEYWORDS}|([A-Z][A-Z0-9]*\$))([A-Z][A-Z0-9]*)"
     str_var         = ~r"(?!{KEYWORDS})([A-Z][A-Z0-9]*)\$"
@@ -426,7 +426,7 @@ grammar = Grammar(
     data_str_element    = data_str_element0 / data_str_element1
     data_str_element0   = space* str_literal space*
     data_str_element1   = space* data_str_literal
-    data_str_literal    = ~r'[^",:\n\r]*'
+    data_str_literal    = ~r'(?:[^",:\n\r\x00]|\x00(?!\Z))*'
     single_kw_statement = ({" / ".join(QUOTED_SINGLE_KEYWORD_STATEMENTS)}) space*
     for_statement       = "FOR" space* var space* "=" space* exp space* "TO" space* exp space*
     for_step_statement  = "FOR" space* var space* "=" space* exp space* "TO" space* exp space* "STEP" space* exp space*
